@@ -268,8 +268,9 @@ Definition flush (now : Z) (d : db) : db :=
                else snd (ss_set m dd))
             (idx d) d.
 
-(* gc: Scan with Delete of the entry under the cursor; inside one btree leaf the entry
-   after a deleted one is skipped by the iteration (modelled for a single-leaf index) *)
+(* gc: the records of the index are collected first (store.records) and then visited one by one,
+   each under its own key lock; an expired record is unlinked (the skip flag, which modelled the
+   btree's scan-with-delete artefact of the earlier code, is never set any more) *)
 Fixpoint gc_scan (now : Z) (skip : bool) (es : list (bytes * meta)) (d : db) : db :=
   match es with
   | [] => d
@@ -279,7 +280,7 @@ Fixpoint gc_scan (now : Z) (skip : bool) (es : list (bytes * meta)) (d : db) : d
         match fm_get k (idx d) with
         | None => gc_scan now false r d
         | Some m =>
-            if expired m now d then gc_scan now true r (del_meta k d)
+            if expired m now d then gc_scan now false r (del_meta k d)
             else
               let '(failed, d1) := if meta_modified m then ss_set m d else (false, d) in
               if failed then gc_scan now false r d1   (* the write was rejected: the record stays hot and modified *)
